@@ -757,6 +757,28 @@ func (e *enc) specCall(env *specEnv, n *SCall) (tval, error) {
 			return tval{}, err
 		}
 		return bl(fmt.Sprintf("(str.in_re %s %s)", sv.t, re.unanchored()))
+	case "ReGroup":
+		// ReGroup(s, "pattern", i): the i-th element of FindStringSubmatch(s) for that expression
+		if len(n.Args) != 3 {
+			return tval{}, fmt.Errorf("ReGroup(s, pattern, i)")
+		}
+		lit, ok := n.Args[1].(*SStr)
+		if !ok {
+			return tval{}, fmt.Errorf("ReGroup needs a literal pattern")
+		}
+		sv, err := e.specX(env, n.Args[0])
+		if err != nil {
+			return tval{}, err
+		}
+		iv, err := e.specX(env, n.Args[2])
+		if err != nil {
+			return tval{}, err
+		}
+		rt, _, err := e.reSubTerm(lit.V, sv.t)
+		if err != nil {
+			return tval{}, err
+		}
+		return tval{fmt.Sprintf("(select (arr_%s %s) %s)", e.needStrSlice(), rt, iv.t), strTy, "String"}, nil
 	case "TrimSpace", "TrimLeft":
 		as, err := args()
 		if err != nil {
